@@ -224,6 +224,8 @@ Upd(g, o, ln, o2) ==
       \* --- last start/stop event per watcher
       lastEv1 == IF isEv /\ ln.x \in {"start", "stop"}
                  THEN LET rest == SelectSeq(g.lastEv, LAMBDA e : e[1] # ln.w) IN Append(rest, <<ln.w, ln.x>>)
+                 \* a name that is (re)added or removed starts a new life
+                 ELSE IF isEv /\ ln.x \in {"add", "remove"} THEN SelectSeq(g.lastEv, LAMBDA e : e[1] # ln.w)
                  ELSE g.lastEv
       sdStim == \/ ln.k = "dsig" /\ ln.a \in {15, 2, 3}
                 \/ acq /\ o2.slot = "arbiter_stop"
@@ -238,7 +240,7 @@ Upd(g, o, ln, o2) ==
                              ELSE IF stim \/ (ln.k = "req" /\ ln.q.cmd \in {"kill", "signal"}) THEN FALSE ELSE @,
                !.owner = owner1,
                !.released = IF rel /\ g.op.slot = "arbiter_rm_watcher" /\ g.op.nostop
-                            THEN @ \cup { p \in 1..NK(o2) : OwnerOf(g, p) = g.op.lname /\ KSt(o2, p) = "run" }
+                            THEN @ \cup { p \in 1..NK(o2) : OwnerOf(g, p) = g.op.lname /\ KSt(o2, p) # "reaped" }
                             ELSE @,
                !.spawned = IF isEv /\ ln.x = "spawn" THEN @ \cup {ln.p} ELSE @,
                !.reaped  = IF isEv /\ ln.x = "reap"  THEN @ \cup {ln.p} ELSE @,
@@ -415,7 +417,7 @@ C09_live(g, o, ln) ==
    (ln.k \in {"probe", "end"} /\ Quiet(o) /\ g.passes >= 1 /\ ~g.blocked) =>
       /\ ((g.spawned \ (g.reaped \cup g.killed)) \ g.released)
             = { p \in AllTracked(o) : KSt(o, p) = "run" }
-      /\ \A p \in g.envDied : p \notin AllTracked(o) => p \in g.reaped
+      /\ \A p \in (g.envDied \ g.released) : p \notin AllTracked(o) => p \in g.reaped
 LastEvOf(g, lname) == IF \E i \in 1..Len(g.lastEv) : g.lastEv[i][1] = lname
                       THEN g.lastEv[CHOOSE i \in 1..Len(g.lastEv) : g.lastEv[i][1] = lname][2] ELSE "none"
 C09_startstop(g, o2, ln) ==
@@ -455,8 +457,9 @@ C14_events(g, ln) ==
    /\ (ln.k = "ev" /\ (ln.x = "hook_success:" \o g.hookOpen) /\ g.hookOpen # "") => TRUE
 
 \* ---------------- C15
-C15_dir(g, o2) ==
-   g.booted =>
+C15_dir(g, o2, ln) ==
+   \* judged where a request could observe it: between two callbacks
+   (g.booted /\ ln.cb = 0 /\ ln.k \in {"tick", "req", "probe", "end"}) =>
    /\ Cardinality(SeqToSet(o2.wll)) = Len(o2.wll)
    /\ SeqToSet(o2.wll) = SeqToSet(o2.wn)
 C15_views(o, ln) ==
@@ -501,7 +504,9 @@ C19_auto(g, o, ln, o2) ==
 C08_done(g, o, ln) ==
    (ln.k = "end" /\ g.termAt # -1 /\ ~g.blocked) =>
       /\ "ctrl" \in g.closed /\ "pub" \in g.closed
-      /\ \A p \in 1..NK(o) : KPar(o, p) = 0 /\ p \notin g.released => KSt(o, p) = "reaped"
+      \* (a zombie cannot outlive the daemon process: once circusd has exited the kernel reaps it; what must not
+      \*  exist is a worker that is still running)
+      /\ \A p \in 1..NK(o) : KPar(o, p) = 0 /\ p \notin g.released => KSt(o, p) # "run"
       /\ \A i \in WIdx(o) : o.w[i].st = "stopped"
 
 ---------------------------------------------------------------------------
@@ -523,7 +528,7 @@ Clauses(g, o, ln, o2, g2) ==
     C13_wid |-> C13_wid(o, o2),
     C14_startgate |-> C14_startgate(g, o, o2), C14_siggate |-> C14_siggate(g, ln),
     C14_events |-> C14_events(g, ln),
-    C15_dir |-> C15_dir(g, o2), C15_views |-> C15_views(o, ln), C15_addrm |-> C15_addrm(g, o, ln, o2),
+    C15_dir |-> C15_dir(g, o2, ln), C15_views |-> C15_views(o, ln), C15_addrm |-> C15_addrm(g, o, ln, o2),
     C18_confine |-> C18_confine(g, o, ln),
     C19_order |-> C19_order(g, o, ln), C19_pace |-> C19_pace(g, o, ln), C19_auto |-> C19_auto(g, o, ln, o2) ]
 
@@ -535,7 +540,7 @@ KF(c, g, o, ln, o2, g2) ==
   CASE c = "C09_live" ->
          IF /\ (((g2.spawned \ (g2.reaped \cup g2.killed)) \ g2.released) \ g2.pruned)
                    = { p \in AllTracked(o2) : KSt(o2, p) = "run" }
-            /\ \A p \in g2.envDied : p \notin AllTracked(o2) => p \in (g2.reaped \cup g2.pruned)
+            /\ \A p \in (g2.envDied \ g2.released) : p \notin AllTracked(o2) => p \in (g2.reaped \cup g2.pruned)
          THEN "D4" ELSE ""
     [] c = "C02_complete" ->
          LET off == UNION { { p \in OwnedBy(g2, o2, o2.w[i].ln) : KSt(o2, p) # "reaped" } : i \in BecameStopped(o, o2) } IN
@@ -584,6 +589,7 @@ KF(c, g, o, ln, o2, g2) ==
     [] c = "C01_fresh" ->
          \* a replacement started by this very operation died before it completed
          IF \E p \in 1..NK(o2) : p > g.op.mark /\ OwnerOf(g2, p) # "" /\ KSt(o2, p) # "run" THEN "D14" ELSE ""
+    [] c = "C15_addrm" -> IF g.ctx.on /\ g.ctx.cmd = "add" /\ g.ctx.lname = "" /\ ln.k = "reply" THEN "D9" ELSE ""
     [] c = "C06_status" -> IF g.ctx.on /\ g.ctx.cmd = "status" /\ g.ctx.hasname THEN "STATUS" ELSE ""
     [] c = "C08_done" -> IF g2.dsigBusy THEN "D6" ELSE ""
     [] OTHER -> ""
